@@ -207,6 +207,18 @@ template <class A> static bool distinct_slots (const A& a, const A& b)
     return true;
 }
 
+struct C04CommaPunct : std::numpunct<char>
+{
+    char        do_decimal_point () const override { return ','; }
+    char        do_thousands_sep () const override { return '.'; }
+    std::string do_grouping () const override { return "\3"; }
+};
+static inline const std::locale& c04_comma_locale ()
+{
+    static const std::locale loc (std::locale::classic (), new C04CommaPunct);
+    return loc;
+}
+
 #define SLOTS(c, key, got, wantexpr, what)                                                                     \
     do                                                                                                         \
     {                                                                                                          \
@@ -237,10 +249,11 @@ enum Kind
     K_TEXT,
     K_COUNT
 };
-#define KIND_LABELS "add", "sub", "neg", "cw_mul", "cw_div", "scalar_mul", "scalar_div", "scalar_addsub", "eq_ne", "eq_tolerance", "layout", "ctor_convert", "interop", "text", "slots_distinct"
+#define KIND_LABELS "add", "sub", "neg", "cw_mul", "cw_div", "scalar_mul", "scalar_div", "scalar_addsub", "eq_ne", "eq_tolerance", "layout", "ctor_convert", "interop", "text", "slots_distinct", "text_with_numeric_locale"
 enum
 {
-    L_DISTINCT = K_COUNT
+    L_DISTINCT = K_COUNT,
+    L_LOCALE
 };
 
 template <class A> static constexpr bool has_kind (int k)
@@ -369,6 +382,7 @@ template <class T> static std::string print_one (T v, const std::ostringstream& 
     std::ostringstream o;
     o.flags (like.flags ());
     o.precision (like.precision ());
+    o.imbue (like.getloc ());
     if (matrix_mode)
     {
         if (o.flags () & std::ios_base::fixed)
@@ -966,6 +980,16 @@ template <class A> static void component_case (vp::Ctx& c)
                 if (fmt == 1) os.setf (std::ios_base::fixed, std::ios_base::floatfield);
                 if (fmt == 2) os.setf (std::ios_base::scientific, std::ios_base::floatfield);
                 os.precision (prec);
+                // 1 case in 4: the destination stream carries a numeric locale (decimal comma, grouped digits); a
+                // component printed on its own in such a stream uses it, so every token of the aggregate must too
+                bool with_locale = s.chance (64);
+                bool showpos     = s.chance (32);
+                if (showpos) os.setf (std::ios_base::showpos);
+                if (with_locale)
+                {
+                    os.imbue (c04_comma_locale ());
+                    c.label (L_LOCALE);
+                }
                 // very large magnitudes in fixed notation produce hundreds of digits; fine, but keep them finite-size
                 std::ios_base::fmtflags before = os.flags ();
                 os << a;
@@ -977,6 +1001,7 @@ template <class A> static void component_case (vp::Ctx& c)
                 std::ostringstream like;
                 like.flags (before);
                 like.precision (prec);
+                if (with_locale) like.imbue (c04_comma_locale ());
                 if constexpr (fam != F_MATRIX)
                 {
                     std::string want = "(";
